@@ -96,6 +96,11 @@ def items(tier):
                     for flags in ([{}, {"again": True}] + ([{"at_least": C2}] if git else [])):
                         add(dict({"g": g, "kinds": kinds, "pars": [k != "combine" for k in kinds], "jobs": 2,
                                   "cached": cached, "git": git, "empty_index": True}, **flags))
+    # n = 5: every graph in every listing order, nothing cached (each needed task exactly once, whatever the completion order)
+    for g in rungrid.graphs_upto((5,)):
+        add({"g": g, "kinds": ["cmd"] * 5, "pars": [False] * 5, "jobs": 1})
+        if tier == "thorough" or sum(len(d) for d in g) <= 5:
+            add({"g": g, "kinds": ["exp", "cmd", "exp", "cmd", "exp"], "pars": [True] * 5, "jobs": 2})
     return out
 
 
